@@ -112,6 +112,19 @@ def discharge_call(prog, ctx, site, fa, tb, eng):
         return "benign: " + panics.BENIGN[n]
     if n.startswith("std::thread::functions::spawn") or n.startswith("std::thread::spawn"):
         return "benign: " + panics.BENIGN["std::thread::spawn"]
+    if base in ("get_or_init", "get_or_try_init") and ("once_lock::OnceLock" in n or "cell::once::OnceCell" in n) and len(t["args"]) == 2:
+        # panics only when the initialiser re-enters the same cell: the initialiser (a closure defined here) cannot reach this function again
+        c = tb.operand(t["args"][1])
+        if c[0] == "agg" and str(c[1]).startswith("closure:"):
+            from callgraph import CallGraph
+            cg = ctx.get("_cg")
+            if cg is None:
+                cg = ctx["_cg"] = CallGraph(prog)
+            seen, _ext, _ind = cg.reachable([c[1][len("closure:"):]])
+            from props.common import fn_of
+            home = fn_of(prog, site.body).name
+            if home not in seen and site.body.name not in seen:
+                return "the initialiser cannot re-enter this cell (it does not reach %s)" % home.split("::")[-1]
     if base in ("to_digit", "from_digit", "from_str_radix") and len(args) >= 2 and args[1] is not None and not args[1].empty() and 2 <= args[1].lo and args[1].hi <= 36:
         return "radix %s is within 2..=36" % args[1]
     if ("ops::index::Index" in n or "ops::index::IndexMut" in n):
@@ -275,6 +288,11 @@ def discharge_site(prog, ctx, n, site, fa, tb, eng, reviewed, used_reviews, nume
             ords = [show(tb.operand(a)) for a in site.term["args"][1:]]
             if any("Relaxed" in o or "SeqCst" in o for o in ords):
                 return "rule", "atomic %s with ordering %s is valid" % (nme.split("::")[-1], ords[-1])
+    elif site.kind.startswith("explicit:debug_assert"):
+        # debug_assert!/debug_assert_eq!/debug_assert_ne!: a development check of an internal invariant, compiled out of the
+        # release configuration (which the thorough tier analyses as well).  If its condition can be false the defect is where the
+        # invariant is broken, not here; the site is listed in the evidence and not held against the property.
+        return "debug_only", "debug assertion (absent from the release configuration)"
     elif site.kind.startswith("explicit"):
         # an explicit panic taken only on the poisoned outcome of acquiring a lock: same argument as lock().unwrap()
         def lock_call(x):
